@@ -290,6 +290,14 @@ impl fmt::Display for Formatter {
                         write_sep(f, i, &self.format)?;
                         write!(f, "{}", self.epoch.weekday().to_c89_weekday())?
                     }
+                    Token::Weekday => {
+                        write_sep(f, i, &self.format)?;
+                        write!(f, "{}", self.epoch.weekday())?
+                    }
+                    Token::WeekdayShort => {
+                        write_sep(f, i, &self.format)?;
+                        write!(f, "{:x}", self.epoch.weekday())?
+                    }
                     _ => unreachable!(),
                 };
 
